@@ -45,39 +45,49 @@ theorem Dur.op {fs : FS} {log : List Req} {m : Mem} (h : Dur fs log m) {op : Op}
       · exact ⟨m, by simpa using hd, Or.inl rfl, Or.inl rfl⟩
       · exact ⟨m', by simpa using hd, Or.inr rfl, Or.inl rfl⟩
 
-/-- **The invariant**: every reachable world — process up or down, after any number of crashes at any effect prefix —
-    durably holds a state whose content is the log; while the process is up, that state is its memory. -/
-theorem Reach.dur {w : World} (h : Reach w) : ∃ m, Dur w.fs w.log m ∧ ∀ m', w.mem = some m' → m' = m := by
+/-- **The invariant**, together with any property `Inv` of the memory that the empty database has and every planned
+    operation keeps: every reachable world — process up or down, after any number of crashes at any effect prefix — durably
+    holds a state with `Inv` whose content is the log; while the process is up, that state is its memory. -/
+theorem Reach.dur_inv {Inv : Mem → Prop} (h0 : Inv Mem.fresh)
+    (hstep : ∀ (m : Mem) (op : Op) (phs : List Phase) (m' : Mem) (new : List Req), Inv m → op.plan m = some (phs, m', new) → Inv m')
+    {w : World} (h : Reach w) : ∃ m, Dur w.fs w.log m ∧ Inv m ∧ ∀ m', w.mem = some m' → m' = m := by
   induction h with
-  | init => exact ⟨Mem.fresh, Dur.init, fun _ h => by cases h⟩
+  | init => exact ⟨Mem.fresh, Dur.init, h0, fun _ h => by cases h⟩
   | @opened fs log ls m dels tr _ hls hr htr ih =>
-      obtain ⟨m0, hd, _⟩ := ih
+      obtain ⟨m0, hd, hi, _⟩ := ih
       obtain ⟨dels0, hr0, hsafe, _⟩ := hd.recover hls
       rw [hr0] at hr
       simp only [Except.ok.injEq, Prod.mk.injEq] at hr
       obtain ⟨rfl, rfl⟩ := hr
-      exact ⟨m0, hd.pool (hd.recover_safe hsafe) htr (List.prefix_refl tr), fun _ h => by cases h; rfl⟩
+      exact ⟨m0, hd.pool (hd.recover_safe hsafe) htr (List.prefix_refl tr), hi, fun _ h => by cases h; rfl⟩
   | @openCrash fs log ls m dels tr pre _ hls hr htr hpre ih =>
-      obtain ⟨m0, hd, _⟩ := ih
+      obtain ⟨m0, hd, hi, _⟩ := ih
       obtain ⟨dels0, hr0, hsafe, _⟩ := hd.recover hls
       rw [hr0] at hr
       simp only [Except.ok.injEq, Prod.mk.injEq] at hr
       obtain ⟨rfl, rfl⟩ := hr
-      exact ⟨m0, hd.pool (hd.recover_safe hsafe) htr hpre, fun _ h => by cases h⟩
+      exact ⟨m0, hd.pool (hd.recover_safe hsafe) htr hpre, hi, fun _ h => by cases h⟩
   | @done fs m log op phs m' new tr _ hp htr ih =>
-      obtain ⟨m0, hd, hm⟩ := ih
+      obtain ⟨m0, hd, hi, hm⟩ := ih
       have := hm m rfl
       subst this
-      exact ⟨m', (hd.op hp htr).2, fun _ h => by cases h; rfl⟩
+      exact ⟨m', (hd.op hp htr).2, hstep _ _ _ _ _ hi hp, fun _ h => by cases h; rfl⟩
   | @crash fs m log op phs m' new tr pre _ hp htr hpre ih =>
-      obtain ⟨m0, hd, hm⟩ := ih
+      obtain ⟨m0, hd, hi, hm⟩ := ih
       have := hm m rfl
       subst this
-      obtain ⟨md, hd', _, _⟩ := (hd.op hp htr).1 pre hpre
-      exact ⟨md, hd', fun _ h => by cases h⟩
+      obtain ⟨md, hd', hmd, _⟩ := (hd.op hp htr).1 pre hpre
+      refine ⟨md, hd', ?_, fun _ h => by cases h⟩
+      rcases hmd with rfl | rfl
+      · exact hi
+      · exact hstep _ _ _ _ _ hi hp
   | @stop fs m log _ ih =>
-      obtain ⟨m0, hd, _⟩ := ih
-      exact ⟨m0, hd, fun _ h => by cases h⟩
+      obtain ⟨m0, hd, hi, _⟩ := ih
+      exact ⟨m0, hd, hi, fun _ h => by cases h⟩
+
+theorem Reach.dur {w : World} (h : Reach w) : ∃ m, Dur w.fs w.log m ∧ ∀ m', w.mem = some m' → m' = m := by
+  obtain ⟨m, hd, _, hm⟩ := Reach.dur_inv (Inv := fun _ => True) trivial (fun _ _ _ _ _ _ _ => trivial) h
+  exact ⟨m, hd, hm⟩
 
 /-! ### recovering again -/
 
